@@ -116,3 +116,171 @@ for _r in (True, False):
         for _ty in ("int", "optint"):
             for _bs in ([], [("b", True, False, "str")], [("b", False, False, "str")]):
                 td_class([("a", _r, _ro, _ty)] + _bs)
+
+
+# --------------------------------------------------------------------------- C12: odd objects and type-variable-likes
+# (add-only; terms [k |-> "known", o |-> [c |-> "odd", v |-> <name>]] and [k |-> "typevar", n |-> <name>] of
+# spec/Values.tla OddTerms; used by the value-API totality slice of C12)
+import types as _types
+
+
+def odd_function(x: int, *args: str, k: int = 0, **kw: object) -> int:
+    return x
+
+
+class Unhashable:
+    __hash__ = None  # type: ignore[assignment]
+
+    def __eq__(self, other: object) -> bool:
+        return self is other
+
+    def __repr__(self) -> str:
+        return "Unhashable()"
+
+
+class EqRaises:
+    def __eq__(self, other: object) -> bool:
+        raise RuntimeError("__eq__ raises")
+
+    def __hash__(self) -> int:
+        return 7
+
+    def __repr__(self) -> str:
+        return "EqRaises()"
+
+
+class HashRaises:
+    """unhashable the documented way: __hash__ raises TypeError"""
+
+    def __hash__(self) -> int:
+        raise TypeError("unhashable HashRaises")
+
+    def __repr__(self) -> str:
+        return "HashRaises()"
+
+
+class HashRaisesOther:
+    def __hash__(self) -> int:
+        raise RuntimeError("__hash__ raises")
+
+    def __repr__(self) -> str:
+        return "HashRaisesOther()"
+
+
+class BoolRaises:
+    def __bool__(self) -> bool:
+        raise RuntimeError("__bool__ raises")
+
+    def __repr__(self) -> str:
+        return "BoolRaises()"
+
+
+class EqReturnsOdd:
+    """== returns an object whose truth value raises (numpy-array style)"""
+
+    def __eq__(self, other: object) -> object:  # type: ignore[override]
+        return BoolRaises()
+
+    def __hash__(self) -> int:
+        return 11
+
+    def __repr__(self) -> str:
+        return "EqReturnsOdd()"
+
+
+ODD = {
+    "function": odd_function,
+    "lambda": (lambda: 0),
+    "builtin": len,
+    "method": A().__repr__,
+    "module": _types,
+    "class": A,
+    "genericalias": list[int],
+    "unhashable": Unhashable(),
+    "eqraises": EqRaises(),
+    "hashraises": HashRaises(),
+    "hashraises_rt": HashRaisesOther(),
+    "boolraises": BoolRaises(),
+    "eqodd": EqReturnsOdd(),
+    "nan": float("nan"),
+    "ellipsis": ...,
+    "notimplemented": NotImplemented,
+    "bytearray": bytearray(b"x"),
+    "slice": slice(1, 2),
+    "frozenset": frozenset({1}),
+    "range": range(3),
+}
+
+TB = typing.TypeVar("TB", bound=int)
+TC = typing.TypeVar("TC", int, str)
+PSPEC = typing.ParamSpec("PSPEC")
+TVT = _te.TypeVarTuple("TVT")
+TYPEVARS.update({"TB": TB, "TC": TC})
+N2 = typing.NewType("N2", str)
+NEWTYPES.update({"N2": N2})
+
+
+# --------------------------------------------------------------------------- C12: callables with odd parameter lists
+import functools as _functools
+
+
+class OddMethods:
+    """Methods whose `self` cannot always be bound: obj.method evaluates fine, only calling it may raise."""
+
+    def plain(self, x: int) -> int:
+        return x
+
+    def noparams():  # type: ignore[misc]
+        return 1
+
+    def kwonly(*, k: int = 1):  # type: ignore[misc]
+        return k
+
+    def kwargs_only(**kw: object):  # type: ignore[misc]
+        return kw
+
+    def varargs(*args: object):  # type: ignore[misc]
+        return args
+
+    def selfann(self: int, x: int) -> int:  # type: ignore[misc]
+        return x
+
+    def defaults(self, x: int = 0, *a: str, k: int = 0, **kw: object) -> str:
+        return ""
+
+    @classmethod
+    def cm(cls, x: int) -> int:
+        return x
+
+    @staticmethod
+    def sm(x: int) -> int:
+        return x
+
+    def __call__(self, x: int) -> int:
+        return x
+
+    def __repr__(self) -> str:
+        return "OddMethods()"
+
+
+@typing.overload
+def odd_overloaded(x: int) -> int: ...
+@typing.overload
+def odd_overloaded(x: str) -> str: ...
+def odd_overloaded(x: object) -> object:
+    return x
+
+
+class CallbackProto(typing.Protocol):
+    def __call__(self, x: int) -> int: ...
+
+
+_OM = OddMethods()
+ODD.update({
+    "bm_plain": _OM.plain, "bm_noparams": _OM.noparams, "bm_kwonly": _OM.kwonly, "bm_kwargs": _OM.kwargs_only,
+    "bm_varargs": _OM.varargs, "bm_selfann": _OM.selfann, "bm_defaults": _OM.defaults, "bm_classmethod": OddMethods.cm,
+    "fn_static": OddMethods.sm, "fn_unbound": OddMethods.plain, "fn_unbound_noparams": OddMethods.noparams,
+    "bm_builtin": [].append, "bm_strjoin": "s".join, "partial": _functools.partial(odd_function, 1),
+    "partial_bm": _functools.partial(_OM.noparams), "overloaded": odd_overloaded, "callable_obj": _OM, "callable_cls": OddMethods,
+    "builtin_cls": int, "method_descriptor": str.join, "wrapper_descriptor": int.__add__, "bm_dunder": (1).__add__,
+})
